@@ -8,6 +8,8 @@ import (
 	"github.com/aptpod/iscp-go/internal/vf"
 )
 
+var errClosedByUser = errors.Errorf("closed by the application: %w", errors.ErrConnectionClosed)
+
 func zzStatus(label string) connStatusValue {
 	v := vf.U8(label)
 	vf.Assume(v < 3)
@@ -79,20 +81,25 @@ func zzC05bSend() {
 	other := stderrors.New("other failure")
 	var script []error
 	for i := 0; i < n; i++ {
-		switch vf.Choose("f"+string(rune('0'+i)), 3) {
+		switch vf.Choose("f"+string(rune('0'+i)), 4) {
 		case 0:
 			script = append(script, nil)
 		case 1:
 			script = append(script, errors.Errorf("wrapped: %w", errors.ErrConnectionClosed))
 		case 2:
 			script = append(script, other)
+		case 3:
+			// the application closes the connection while the call is in flight: the call then
+			// fails with a connection-closed error and the status is already Closed
+			script = append(script, errClosedByUser)
 		}
 	}
 	// the last scripted attempt never asks for another retry
-	if script[n-1] != nil && script[n-1] != other {
+	if script[n-1] != nil && script[n-1] != other && script[n-1] != errClosedByUser {
 		script[n-1] = nil
 	}
 	calls := 0
+	closedByUser := false
 	calledWhileNotConnected := false
 	f := func(ctx context.Context) error {
 		if c.state.Current() != connStatusConnected {
@@ -100,6 +107,10 @@ func zzC05bSend() {
 		}
 		err := script[calls]
 		calls++
+		if err == errClosedByUser {
+			c.state.Swap(connStatusClosed)
+			closedByUser = true
+		}
 		return err
 	}
 	ctx, cancel := context.WithCancel(context.Background())
@@ -130,17 +141,24 @@ func zzC05bSend() {
 	if c.state.Current() == connStatusClosed && !returned {
 		vf.Assert("closed-connection-reports-closed", false)
 	}
+	if closedByUser {
+		// Close is final: the wrapper must not resurrect the connection, and must report it closed
+		vf.Assert("close-during-call-stays-closed", c.state.Current() == connStatusClosed)
+		vf.Assert("close-during-call-reports-closed", returned && errors.Is(err, errors.ErrConnectionClosed))
+	}
 	if returned {
 		vf.Assert("never-called-while-not-connected", !calledWhileNotConnected)
 		if err == nil {
 			vf.Assert("nil-iff-some-attempt-succeeded", calls >= 1 && script[calls-1] == nil)
 		} else if err == other {
 			vf.Assert("other-errors-not-retried", script[calls-1] == other)
+		} else if closedByUser {
+			vf.Assert("closed-by-user-not-retried", script[calls-1] == errClosedByUser)
 		} else {
 			vf.Assert("closed-error-only-when-closed", errors.Is(err, errors.ErrConnectionClosed) && c.state.Current() == connStatusClosed)
 		}
 		for i := 0; i+1 < calls; i++ {
-			vf.Assert("retried-only-after-connection-closed-errors", script[i] != nil && script[i] != other)
+			vf.Assert("retried-only-after-connection-closed-errors", script[i] != nil && script[i] != other && script[i] != errClosedByUser)
 		}
 		vf.Reach("returned")
 	}
